@@ -5,6 +5,8 @@
 // every run, on a ghost `Game` with exactly the fields they read.  Their String machinery (one format! each) is the
 // real library code.  The board field and the counters go through iterator adapters / integer formatting and are not
 // under contract.
+// MEASURED: even ONE real format! call does not fit CBMC here (castling field: time-out after 1500 s at 4 GB;
+// side/en-passant fields: 10 GB exceeded after 220 s) => all three are *experimental*; the FEN writer stays unchecked.
 use crate::chess::player::{ByPlayer, Player};
 use crate::chess::game::CastleRights;
 use crate::chess::square::Square;
@@ -32,6 +34,7 @@ fn any_game() -> Game {
 }
 
 //@ obligation: C06.writer.castling_field
+//@ status: experimental
 //@ domain: complete
 //@ functions: chess/fen/fen_writer.rs::format_castle_rights
 //@ timeout: 1500
@@ -66,6 +69,7 @@ fn vk_c06_writer_castling_field() {
 }
 
 //@ obligation: C06.writer.side_and_ep_fields
+//@ status: experimental
 //@ domain: complete
 //@ functions: chess/fen/fen_writer.rs::format_current_player, chess/fen/fen_writer.rs::format_en_passant_target
 //@ timeout: 1500
@@ -88,6 +92,7 @@ fn vk_c06_writer_side_and_ep_fields() {
 }
 
 //@ obligation: C06.canary.writer
+//@ status: experimental
 //@ canary: true
 //@ timeout: 1500
 //@ mem_gb: 10
